@@ -538,9 +538,12 @@ func runC01(c *Ctx) {
 
 	// ---- R3 ----
 	c01Routing(c)
+	c02Gate(c, "C01-R3")
 
 	// ---- R4 ----
 	c01Checks(c)
+	c04NoExperimentalFlag(c, "C01-R4")
+	c11PackageSlicesNotAppended(c, "C01-R4")
 
 	// ---- R5 ----
 	if parse := c.MustFunc("C01-R5", "internal/parser.Parser.Parse"); parse != nil {
